@@ -24,6 +24,11 @@ AccOK(e) ==
 Verdict(e) ==
     IF e.panic # "" THEN "P:C14:panic"
     ELSE IF e.err # "" THEN "P:C14:decoder-rejects-a-value-of-the-grammar"
+    ELSE IF e.kind = "cseq"
+    THEN IF e.enc1 # e.text THEN "P:C14:re-encoded-value-differs-from-the-received-one"
+         ELSE IF e.enc2 # e.enc1 THEN "P:C14:encode-decode-encode-is-not-a-fixpoint"
+         ELSE IF e.acc.seq # e.want.seq \/ e.acc.method # e.want.method THEN "P:C14:decoding-does-not-extract-what-the-text-denotes"
+         ELSE ""
     ELSE IF e.kind = "viastamp"
     THEN LET p1 == SetParam(e.conc[1].params, "received", e.stamp.ip)
              p2 == IF HasParam(p1, "rport") THEN SetParam(p1, "rport", e.stamp.port) ELSE p1
